@@ -381,10 +381,39 @@ pub fn structural_probes() -> Vec<Probe> {
         ("PhantomData marker in a tuple root", "std::marker::PhantomData<&'static Gc<'gc, ()>>", "std::marker::PhantomData"),
         ("Option<Gc<.., &'static &'gc ()>> carrier in a tuple root", "Option<Gc<'gc, &'static &'gc ()>>", "None"),
         ("PhantomData<fn(&'static &'gc ())> marker in a tuple root", "std::marker::PhantomData<fn(&'static &'gc ())>", "std::marker::PhantomData"),
+        ("Option<Gc<.., &'static Gc<..>>> carrier in a tuple root", "Option<Gc<'gc, &'static Gc<'gc, i32>>>", "None"),
     ] {
         let neg = format!("{PRELUDE}\ntype Collapsed<'gc> = (Gc<'gc, i32>, {marker});\nthread_local! {{ static STASH: std::cell::Cell<Option<Gc<'static, i32>>> = std::cell::Cell::new(None); }}\nfn main() {{\n    let a = Arena::<Rootable![Collapsed<'_>]>::new(|mc| (Gc::new(mc, 1), {mk}));\n    a.mutate(|mc, _root| {{ let g = Gc::new(mc, 7i32); STASH.with(|s| s.set(Some(g))); }});\n}}\n");
         let twin = format!("{PRELUDE}\ntype Plain<'gc> = (Gc<'gc, i32>, std::marker::PhantomData<&'static u8>);\nthread_local! {{ static STASH: std::cell::Cell<Option<i32>> = std::cell::Cell::new(None); }}\nfn main() {{\n    let a = Arena::<Rootable![Plain<'_>]>::new(|mc| (Gc::new(mc, 1), std::marker::PhantomData));\n    a.mutate(|mc, _root| {{ let g = Gc::new(mc, 7i32); STASH.with(|s| s.set(Some(*g))); }});\n}}\n");
         v.push(Probe { name: format!("non_wf_root_{}", v.len()), class: format!("non-wf-root-implies-static|{n}"), negative: neg, twin });
+    }
+    // `&'static T` is Collect, and never traced, only for T: 'static: a root must not reach a pointer
+    // through a leaked box (the explicit T: 'static bound on that impl is what rejects these; where the
+    // reference sits behind a Gc or a PhantomData the programs fall under the known finding above)
+    for (n, ty, mk) in [
+        ("&'static Gc as the root", "&'static Gc<'gc, i32>", "&*Box::leak(Box::new(Gc::new(mc, 1)))"),
+        ("&'static Gc in a tuple root", "(Gc<'gc, i32>, &'static Gc<'gc, i32>)", "(Gc::new(mc, 1), &*Box::leak(Box::new(Gc::new(mc, 1))))"),
+        ("&'static Lock<Option<Gc>> as the root", "&'static Lock<Option<Gc<'gc, i32>>>", "&*Box::leak(Box::new(Lock::new(None)))"),
+        ("Option<&'static [Gc]> as the root", "Option<&'static [Gc<'gc, i32>]>", "None"),
+        ("Vec<&'static Gc> as the root", "Vec<&'static Gc<'gc, i32>>", "Vec::new()"),
+        ("Box<&'static Gc> as the root", "Box<&'static Gc<'gc, i32>>", "Box::new(&*Box::leak(Box::new(Gc::new(mc, 1))))"),
+        ("&'static GcWeak as the root", "&'static GcWeak<'gc, i32>", "&*Box::leak(Box::new(Gc::downgrade(Gc::new(mc, 1))))"),
+    ] {
+        let neg = format!("{PRELUDE}
+type SR<'gc> = {ty};
+fn main() {{
+    let mut a = Arena::<Rootable![SR<'_>]>::new(|mc| {mk});
+    a.finish_cycle();
+}}
+");
+        let twin = format!("{PRELUDE}
+type SR<'gc> = (Gc<'gc, i32>, &'static i32, &'static [u8], Option<&'static str>);
+fn main() {{
+    let mut a = Arena::<Rootable![SR<'_>]>::new(|mc| (Gc::new(mc, 1), &*Box::leak(Box::new(7)), &[1u8, 2][..], None));
+    a.finish_cycle();
+}}
+");
+        v.push(Probe { name: format!("static_ref_root_{}", v.len()), class: format!("static-reference-to-branded-data-in-root|{n}"), negative: neg, twin });
     }
     // the root must be Collect: the arena releases every object before it drops the root, so the
     // destructor of a root that is not Collect (a user Drop impl reading its Gc, a std Ref guard
